@@ -333,6 +333,11 @@ class Interp:
         if not hits:
             hits = [c for k, c in self.prog.consts.items() if path_tail(k) and want[-len(path_tail(k)):] == path_tail(k) and
                     all(sg[:1].isupper() for sg in want[:-len(path_tail(k))])]
+        if not hits:
+            # items nested in a function body (`const FIELDS` inside a derived `deserialize`) are printed bare at their definition
+            loose = [c for k, c in self.prog.consts.items() if path_tail(k) and want[-len(path_tail(k)):] == path_tail(k)]
+            if len(loose) == 1:
+                return loose[0]
         if len(hits) == 1:
             return hits[0]
         if len(hits) > 1:
